@@ -125,3 +125,75 @@ Theorem prefix_ambiguity_refuted :
 Proof.
   split; [reflexivity|]. vm_compute. intros H. inversion H as [|? ? Hn _]. apply Hn. vm_compute. tauto.
 Qed.
+
+(** * What the single sweep does guarantee: two enums that both stay unprefixed have no constant in common. *)
+Lemma inner_false e1 : forall later f1,
+  fst (inner e1 f1 later) = false ->
+  f1 = false /\ snd (inner e1 f1 later) = later /\
+  Forall (fun p => shares (vals e1 false) (vals (fst p) (snd p)) = false) later.
+Proof.
+  induction later as [|[e2 f2] t IH]; intros f1 H; [simpl in H; subst; repeat split; constructor|].
+  cbn [inner] in *. destruct (shares (vals e1 f1) (vals e2 f2)) eqn:S; cbn [fst snd] in *.
+  - destruct (IH true H) as [X _]. discriminate X.
+  - destruct (IH f1 H) as [F [E A]]. subst f1. repeat split; [rewrite E; reflexivity|].
+    constructor; [exact S|exact A].
+Qed.
+
+Definition keeps (a b : enum * bool) : Prop := fst a = fst b /\ (snd b = false -> snd a = false).
+
+Lemma inner_keeps e1 : forall later f1, Forall2 keeps later (snd (inner e1 f1 later)).
+Proof.
+  induction later as [|[e2 f2] t IH]; intros f1; [constructor|]. cbn [inner].
+  destruct (shares _ _); cbn [snd]; constructor; try apply IH; split; auto; cbn; intros X; try discriminate X; exact X.
+Qed.
+
+Lemma finish_false types e f : finish types e f = false -> f = false.
+Proof. unfold finish. intros H. apply orb_false_iff in H. destruct H as [H _]. apply orb_false_iff in H. apply H. Qed.
+
+Lemma Forall2_trans_keeps : forall a b c, Forall2 keeps a b -> Forall2 keeps b c -> Forall2 keeps a c.
+Proof.
+  induction a as [|x a IH]; intros b c H1 H2; inversion H1; subst; inversion H2; subst; constructor.
+  - unfold keeps in *. destruct H3 as [A B]. destruct H4 as [C D]. split; [congruence|auto].
+  - eapply IH; eauto.
+Qed.
+
+Lemma outer_keeps types : forall n l, List.length l <= n -> Forall2 keeps l (outer n types l).
+Proof.
+  induction n as [|n IH]; intros l H.
+  - destruct l; [constructor|simpl in H; lia].
+  - destruct l as [|[e1 f1] t]; [constructor|]. cbn [outer]. constructor.
+    + split; [reflexivity|]. cbn [snd]. intros X. apply finish_false in X.
+      destruct (inner_false e1 t f1 X) as [F _]. exact F.
+    + eapply Forall2_trans_keeps; [apply inner_keeps|]. apply IH. rewrite inner_length. simpl in H. lia.
+Qed.
+
+Fixpoint unprefixed_disjoint (l : list (enum * bool)) : Prop :=
+  match l with
+  | [] => True
+  | p :: t => (snd p = false -> Forall (fun q => snd q = false -> shares (snd (fst p)) (snd (fst q)) = false) t)
+              /\ unprefixed_disjoint t
+  end.
+
+Lemma transfer e1 : forall t t',
+  Forall (fun p => shares (vals e1 false) (vals (fst p) (snd p)) = false) t -> Forall2 keeps t t' ->
+  Forall (fun q => snd q = false -> shares (snd e1) (snd (fst q)) = false) t'.
+Proof.
+  induction t as [|p t IH]; intros t' HF HK.
+  - inversion HK; subst. constructor.
+  - inversion HK as [|? q ? t2 Hpq Hrest]; subst. inversion HF as [|? ? Hp Ht]; subst.
+    constructor; [|apply IH; assumption].
+    intros Q. destruct Hpq as [E K]. specialize (K Q). rewrite K in Hp. cbn [vals] in Hp. rewrite E in Hp. exact Hp.
+Qed.
+
+Lemma outer_unprefixed_disjoint types : forall n l, List.length l <= n -> unprefixed_disjoint (outer n types l).
+Proof.
+  induction n as [|n IH]; intros l H.
+  - destruct l; [exact I|simpl in H; lia].
+  - destruct l as [|[e1 f1] t]; [exact I|]. cbn [outer unprefixed_disjoint fst snd]. split.
+    + intros X. apply finish_false in X. destruct (inner_false e1 t f1 X) as [_ [E A]]. rewrite E.
+      apply (transfer e1 t); [exact A|]. apply outer_keeps. simpl in H. lia.
+    + apply IH. rewrite inner_length. simpl in H. lia.
+Qed.
+
+Theorem unprefixed_enums_are_disjoint always types enums : unprefixed_disjoint (resolve always types enums).
+Proof. unfold resolve. apply outer_unprefixed_disjoint. rewrite map_length. lia. Qed.
